@@ -452,6 +452,10 @@ pub type ViewS<'a, G> = Wnaf<usize, Vec<G>, &'a [i64]>;
 
 /// mutable objects owned by one simulated thread and reused along its operation list
 pub struct GObjs<'a, G: CurveProjective> {
+    /// caller-owned output buffers for precomp_3 / precomp_256, reused along the thread's operation
+    /// list (they start out holding unrelated points: the routines must overwrite every slot)
+    pub tbl3: Vec<G::Affine>,
+    pub tbl256: Vec<G::Affine>,
     pub ctx: Ctx<G>,
     pub raw_table: Vec<G>,
     pub raw_digits: Vec<i64>,
@@ -460,7 +464,7 @@ pub struct GObjs<'a, G: CurveProjective> {
 }
 impl<'a, G: CurveProjective> GObjs<'a, G> {
     pub fn new() -> Self {
-        GObjs { ctx: Wnaf::new(), raw_table: vec![], raw_digits: vec![], views_b: vec![], views_s: vec![] }
+        GObjs { tbl3: vec![], tbl256: vec![], ctx: Wnaf::new(), raw_table: vec![], raw_digits: vec![], views_b: vec![], views_s: vec![] }
     }
 }
 pub struct ThreadObjs<'a> {
@@ -764,6 +768,26 @@ where
                 img_proj(&r, out);
                 claim(claims, p, a(1), &r, "mul_precomp_3");
             }
+        }
+        "pre3_reuse" => {
+            let p = a(0) % G::nsub();
+            if o.tbl3.is_empty() {
+                o.tbl3 = vec![G::aff(1); 3];
+            }
+            G::aff(p).precomp_3(&mut o.tbl3);
+            let r = G::aff(p).mul_precomp_3(FrRepr(scalar(a(1))), &o.tbl3);
+            img_proj(&r, out);
+            claim(claims, p, a(1), &r, "precomp_3 into a reused buffer, then mul_precomp_3");
+        }
+        "pre256_reuse" => {
+            let p = a(0) % G::nsub();
+            if o.tbl256.is_empty() {
+                o.tbl256 = vec![G::aff(2); 256];
+            }
+            G::aff(p).precomp_256(&mut o.tbl256);
+            let r = G::aff(p).mul_precomp_256(FrRepr(scalar(a(1))), &o.tbl256);
+            img_proj(&r, out);
+            claim(claims, p, a(1), &r, "precomp_256 into a reused buffer, then mul_precomp_256");
         }
         "pre256" => {
             let p = a(0) % G::nsub();
